@@ -108,7 +108,24 @@ def run_frames(pid, tier, t0):
     res = vlib.replay_slice("MC_Frames.tla", "MC_Frames.cfg", frames_consts(tier), ez, tag="frames", timeout=6000)
     return report_replay(pid, [("MC_Frames", res)], tier, t0, assumptions=SHAPE_ASSUME)
 
+def run_params(pid, tier, t0):
+    ez = vlib.build("plain")
+    consts = {"MaxVals": 2, "Deep": "FALSE"} if tier == "quick" else {"MaxVals": 3, "Deep": "TRUE"}
+    res = vlib.replay_slice("MC_Params.tla", "MC_Params.cfg", consts, ez, tag="params", timeout=6000)
+    return report_replay(pid, [("MC_Params", res)], tier, t0,
+                         assumptions=["parameter alphabet: int/float/string, 0..%s values, dimension arguments with up to %s entries" % (consts["MaxVals"], 8 if tier != "quick" else 3)])
+
+def run_lookup(pid, tier, t0):
+    ez = vlib.build("plain")
+    consts = {"NPts": 2, "MaxFrames": 1} if tier == "quick" else {"NPts": 2, "MaxFrames": 2}
+    res = vlib.replay_slice("MC_Lookup.tla", "MC_Lookup.cfg", consts, ez, tag="lookup", timeout=6000)
+    return report_replay(pid, [("MC_Lookup", res)], tier, t0,
+                         assumptions=["positions 2^32 and 2^64-1 are tokens (-2, -1) mapped by the harness: TLC integers are 32 bit",
+                                      "exception classes reduced most-derived-first as binding/ezc3d.i does"])
+
 CHECKS = {
+    "C11": run_lookup,
+    "C09": run_params,
     "C06": run_frames,
     "C08": run_frames,
     "C05": run_shape,
